@@ -109,6 +109,16 @@ def stepSt (s : St) (ws : List String) : St × String :=
       | "new" => doOp s [] (.ctorDefault i)
       | "del" => doOp s [i] (.dtor i)
       | "rst" => doOp s [i] (.reset i)
+      | "empx" =>
+        -- emplace whose payload constructor throws: `reset()` has happened, no payload was constructed
+        if s.ty = "str" || s.ty = "trk" then
+          (if i < 3 then
+            (if present s.σ i then
+              let s' := { s with σ := step s.σ (.reset i) }
+              (s', "throw" ++ tail s')
+             else (s, "absent" ++ tail s))
+           else (s, "bad-op"))
+        else (s, "bad-op")
       | "asown" =>
         -- `o = o.value()`: operator=(U&&) applied to the wrapper's own payload (same code path as `asv`)
         if present s.σ i then
